@@ -55,7 +55,21 @@ func init() {
 		sanPerms, extPerms := 0, 0
 		// directed first: groups of related names (case variants, exact duplicates, trailing dots, wildcard and base name,
 		// several addresses of both families with a reserved one in each position); then random draws from the pool
-		directed := relatedNameGroups
+		directed := append([][]genName{}, relatedNameGroups...)
+		// names of structured types (directoryName with and without content, otherName, registeredID, an address) next to
+		// an empty name of each string type, in every order: a walker that nests a second decoder inside its loop
+		{
+			dn := encTLV(0x30, encTLV(0x31, encTLV(0x30, concat(encTLV(0x06, []byte{0x55, 0x04, 0x03}), encTLV(0x0c, []byte("dir name"))))))
+			structured := []genName{{4, dn}, {4, encTLV(0x30, nil)}, {0, concat(encTLV(0x06, []byte{0x2b, 0x06, 0x01, 0x05, 0x05, 0x07, 0x08, 0x09}), encTLV(0xA0, encTLV(0x0c, []byte("u@example.com"))))},
+				{8, []byte{0x2a, 0x03, 0x04}}, {7, net.ParseIP("8.8.4.4").To4()}}
+			empties := []genName{{1, nil}, {2, nil}, {6, nil}}
+			for _, st := range structured {
+				for _, e := range empties {
+					directed = append(directed, []genName{st, e}, []genName{{2, []byte("example.com")}, st, e})
+				}
+				directed = append(directed, []genName{st, {2, []byte("-bad.example.com")}}, []genName{st, {6, []byte("http://exa mple.com/")}, {1, []byte("not an address")}})
+			}
+		}
 		for i := 0; i < nGen+len(directed); i++ {
 			k := 2 + rng.Intn(3)
 			var names []genName
